@@ -635,3 +635,24 @@ Proof.
   - apply gen_Inv3 with (t := t) (cx := cx); try assumption; reflexivity.
   - apply gen_Least with (t := t) (cx := cx); try assumption; reflexivity.
 Qed.
+
+(* the machine the generator builds for a validated file: closed, least, one state per core *)
+Theorem machine_is_the_lalr_automaton hot fu v m :
+  (forall l, Permutation (hot l) l) -> validated_ast_to_machine hot fu v = Ok m ->
+  exists cx, cx_rules cx = get_rules v /\ cx_start cx = vf_start v /\
+             MInv cx m /\
+             (forall k st it, nth_error (m_states m) k = Some st -> In it st -> Der cx (m_transitions m) (m_start m) k it) /\
+             (forall i j si sj, nth_error (m_states m) i = Some si -> nth_error (m_states m) j = Some sj -> same_cores si sj -> i = j).
+Proof.
+  intros Hpt Hm. unfold validated_ast_to_machine in Hm.
+  apply bind_ok in Hm as (cx & Hcx & Hm). apply bind_ok in Hm as (start & Hstart & Hm).
+  unfold make_context in Hcx. apply bind_ok in Hcx as (fm & Hfm & Hcx). injection Hcx as <-.
+  destruct (get_first_sets_spec _ _ _ Hfm) as (HFI & _).
+  set (cx := {| cx_start := vf_start v; cx_rules := get_rules v; cx_first := fm |}) in *.
+  assert (Hfmok : fm_ok cx).
+  { intros n fs u Hg Hu. destruct (fi_occurs _ _ HFI n fs u Hg Hu) as (ru & Hru & Hs). exists ru. auto. }
+  exists cx. split; [reflexivity|]. split; [reflexivity|]. split; [|split].
+  - apply (machine_spec cx Hfmok hot (fu_build fu) (fu_closure fu) m start Hpt Hstart Hm).
+  - apply (machine_der cx Hfmok hot (fu_build fu) (fu_closure fu) m start Hpt Hstart Hm).
+  - apply (machine_uniq cx Hfmok hot (fu_build fu) (fu_closure fu) m start Hstart Hm).
+Qed.
